@@ -35,7 +35,10 @@ CONSTANTS Members,     \* set of members
           Std,         \* Std[m] = number of external standard-input messages of m
           StdFrom,     \* StdFrom[m] = members of the same group feeding m through a NON-cyclic edge
           CycEdges,    \* set of <<m, n>>: cyclic edge from m to n
-          Fuel
+          Fuel,
+          FailMode     \* "none": processing never fails; "dec": a failing (panicking) message handler still
+                       \* releases its message (the deferred Done); "nodec": the release is lost - the defect
+                       \* a seeded change introduced; must violate Termination
 
 VARIABLES stdLeft, queue, inflight, latched, reported, allReady, pc, closed, awake, fuel, lost, sentAfterLatch
 vars == <<stdLeft, queue, inflight, latched, reported, allReady, pc, closed, awake, fuel, lost, sentAfterLatch>>
@@ -140,6 +143,15 @@ CycConsume(e) ==
                /\ Dec(inflight + Cardinality(S) - 1)
   /\ UNCHANGED <<stdLeft, reported, allReady, pc, closed, awake>>
 
+\* the handler of a message on a cyclic edge fails (a panic in the storage layer is recovered by the
+\* worker and reported as the pipeline's error): nothing is emitted; the message's in-flight unit must
+\* still be released or the group can never become quiet
+CycFail(e) ==
+  /\ FailMode # "none" /\ queue[e] > 0 /\ pc[e[2]] # "done"
+  /\ queue' = [queue EXCEPT ![e] = @ - 1]
+  /\ IF FailMode = "dec" THEN Dec(inflight - 1) ELSE UNCHANGED <<inflight, latched>>
+  /\ UNCHANGED <<stdLeft, reported, allReady, pc, closed, awake, fuel, lost, sentAfterLatch>>
+
 \* wgRecursive.Wait returns: every cyclic upstream closed and drained
 Drained(m) ==
   /\ pc[m] = "drain"
@@ -148,7 +160,7 @@ Drained(m) ==
   /\ UNCHANGED <<stdLeft, queue, inflight, latched, reported, allReady, closed, awake, fuel, lost, sentAfterLatch>>
 
 Next == \/ \E m \in Members : StdConsume(m) \/ StdDone(m) \/ Report(m) \/ Release(m) \/ Proceed(m) \/ Woken(m) \/ Cleanup(m) \/ Wake(m) \/ Drained(m)
-        \/ \E e \in CycEdges : CycConsume(e)
+        \/ \E e \in CycEdges : CycConsume(e) \/ CycFail(e)
 Spec == Init /\ [][Next]_vars /\ WF_vars(Next)
 
 ----------------------------------------------------------------------------
